@@ -541,6 +541,27 @@ func genC08(r *rng, tier string) *Case {
 	}
 	need := k + offset
 	term := pick(r, "first", "present", "indexWhere", "contains", "single", "topsize", "lazyk", "multiUse")
+	// a lazy second operand (cross / merge / +) as the last stage
+	second := ""
+	if r.chance(0.25) {
+		second = pick(r, "cross", "merge", "plus")
+		term = pick(r, "first", "present", "indexWhere", "contains")
+		p.B = pick(r, 1_000_000_000, 100_000_000_000, 60, 500)
+		if second != "plus" && p.B < 1000 && k >= p.B/2 {
+			k = r.intn(p.B / 2)
+			need = k + offset
+		}
+		if second == "plus" && p.N <= 300 {
+			// the decisive element must lie inside the first operand
+			if k+offset >= p.N-offset-2 {
+				k = 0
+				need = offset
+			}
+		}
+		p.Stages = append(p.Stages, Stage{Op: second, Ident: true})
+		x.Has2 = true
+		x.Merge = second == "merge"
+	}
 	switch term {
 	case "first":
 		p.Term = Stage{Op: "first"}
@@ -567,8 +588,34 @@ func genC08(r *rng, tier string) *Case {
 			p.MU[0], p.MU[1] = p.MU[1], p.MU[0]
 		}
 	}
+	switch second {
+	case "cross":
+		// the stream behind cross is the second operand's 0,1,2,... (for the first element of the receiver)
+		x.Need2 = k
+		need = offset
+		switch term {
+		case "first":
+			x.Need2 = 0
+		default:
+			p.K = k
+		}
+	case "plus":
+		x.Need2 = -1
+	case "merge":
+		// receiver values start at offset, second operand at 0: the value K is decisive
+		if term == "first" {
+			need, x.Need2 = offset, 0
+		} else {
+			p.K = k + offset
+			need, x.Need2 = k+offset, k+offset
+		}
+	}
+	// the source must be longer than everything the consumer needs
+	if m := 2*(need+offset) + 30; p.N < m {
+		p.N = m
+	}
 	host := HostTables{Costs: costs}
-	if r.chance(0.35) {
+	if r.chance(0.35) && second == "" {
 		// a failing source element somewhere relative to the decisive one
 		f := need + pick(r, -3, -1, 0, 1, 2, 3, 5, 8, 20, 50, 200, 1000)
 		if f >= 0 {
@@ -690,6 +737,21 @@ func genC12(r *rng, tier string) *Case {
 			host.Fails[s] = Match{Kind: pick(r, "eq", "ge"), A: pick(r, 0, 5, 13, 14, 30, 90)}
 		}
 	}
+	if r.chance(0.12) {
+		// a panicking host function in some closure-calling stage (every error path)
+		var cands []int
+		for i := range p.Stages {
+			if hasClosure(p.Stages[i].Op) {
+				cands = append(cands, i)
+			}
+		}
+		if len(cands) > 0 {
+			s := pick(r, cands...)
+			p.Stages[s].Boom = true
+			host.Booms = make([]Match, nIds)
+			host.Booms[s] = Match{Kind: pick(r, "eq", "ge"), A: pick(r, 0, 5, 13, 14, 30, 90)}
+		}
+	}
 	if !huge && r.chance(0.1) {
 		p.Const = true
 		if p.N > 100 {
@@ -697,6 +759,7 @@ func genC12(r *rng, tier string) *Case {
 		}
 		for i := range p.Stages { // host functions must be foldable: use pcost through text replace below
 			p.Stages[i].Fail = false
+			p.Stages[i].Boom = false
 		}
 	}
 	sim, stalls := genSim(r, true, true)
